@@ -822,6 +822,9 @@ func (g *Gen) entryState(b *ssa.BasicBlock, init *State) (*State, string) {
 				if strings.HasPrefix(k, "lock.") {
 					return "Bool"
 				}
+				if strings.HasPrefix(k, "lockn.") {
+					return "Int"
+				}
 				return g.sortOf(g.resolveType(gv.Type, g.pkgTypes()))
 			}, "mgh."+k)
 		merged.ghost[k] = v
@@ -865,6 +868,12 @@ func (g *Gen) ghostGet(st *State, name string) string {
 			}
 		}
 		return "false"
+	}
+	if strings.HasPrefix(name, "lockn.epoch.") {
+		return "0" // number of acquisitions so far
+	}
+	if strings.HasPrefix(name, "lockn.at.") {
+		return "(- 1)" // no such call yet
 	}
 	gv := g.cs.Ghosts[name]
 	n := "ghost0." + sanitize(name)
@@ -1040,6 +1049,28 @@ func (g *Gen) loopHead(li *loopInfo, st *State, reach string) *State {
 }
 
 func (g *Gen) backEdge(li *loopInfo, st *State, cond string, from *ssa.BasicBlock) {
+	// lock bookkeeping is not havoc'd at loop heads: every iteration is analysed with the lock state of
+	// the loop entry, which is justified if each iteration ends in that state
+	if g.con.Opts["lock-order"] != "" {
+		if hs := g.loopHeadState[li]; hs != nil {
+			var keys []string
+			for k := range st.ghost {
+				if strings.HasPrefix(k, "lock.") {
+					keys = append(keys, k)
+				}
+			}
+			sort.Strings(keys)
+			for _, k := range keys {
+				cur, head := st.ghost[k], g.ghostGet(hs, k)
+				if cur == head {
+					continue
+				}
+				n := g.safeCtr["lockorder"]
+				g.safeCtr["lockorder"]++
+				g.addObl("lock-order", fmt.Sprint(n), implies(cond, "(= "+cur+" "+head+")"), li.pos, "an iteration of the loop leaves "+strings.TrimPrefix(k, "lock.")+" as it found it", nil)
+			}
+		}
+	}
 	spec := g.loopSpec(li)
 	if spec == nil {
 		return
